@@ -383,6 +383,9 @@ class Interp(Ops):
     def e_IfExp(self, e, fr):
         c = self.truth(self.eval(e.test, fr))
         if self.spec_mode:
+            if not isinstance(c, bool):
+                cs = z3.simplify(c)
+                c = True if z3.is_true(cs) else (False if z3.is_false(cs) else c)
             if isinstance(c, bool):
                 return self.eval(e.body if c else e.orelse, fr)
             a = self.eval(e.body, fr)
